@@ -46,6 +46,7 @@ def check(run):
         run.guard("C12.4.single-construction", cfg, lambda: rule_single(run, F, cfg))
         run.guard("C12.5.url-scanner-tables", cfg, lambda: rule_scanner(run, F, cfg))
         run.guard("C12.5.url-scanner-tables", cfg + "/brackets", lambda: rule_brackets(run, F, cfg))
+        run.guard("C12.5.url-scanner-tables", cfg + "/authority-ends", lambda: rule_authority_ends(run, F, cfg))
         run.guard("C12.5.url-scanner-tables", cfg + "/host-normalisation", lambda: rule_host_normalised(run, F, cfg))
         run.guard("C12.6.host-span", cfg, lambda: rule_host_span(run, F, cfg))
         run.guard("C12.7.whole-url", cfg, lambda: rule_whole_url(run, F, cfg))
@@ -261,6 +262,48 @@ def rule_scanner(run, F, cfg):
         run.ob("C12.5.url-scanner-tables", "domain-always-from-psl", ok and dom,
                "DefaultResolver::get_host_domain sends every non-empty host through List.parse_domain_name (no "
                f"fast path that bypasses the public-suffix list); local helpers called: {calls}", site=dr.loc(0), config=cfg)
+
+
+def rule_authority_ends(run, F, cfg):
+    """Where the authority component ends: both scanners (the userinfo look-ahead and the host scan) stop at `/`, `?`
+    and `#` for every scheme, and at `\\` for the special schemes (http, https, ws, wss, ftp, file treat a backslash
+    like a slash: `https://example.com\\@evil.test/` is a request to example.com). The two scanners agreeing with each
+    other is not enough: both have to agree with this table."""
+    for name in ("parse_userinfo", "parse_host"):
+        f = F.fn("url_parser::parser::Parser::" + name)
+        run.touched(f)
+        sw = [f.blocks[b]["t"] for b in sorted(f.normal_blocks()) if f.blocks[b]["t"]["k"] == "switch" and f.blocks[b]["t"].get("dty") == "char"]
+        ok, why = False, "no switch on the scanned character"
+        for t in sw:
+            tg = dict((v, b) for v, b in t["targets"])
+            if not all(c in tg for c in (47, 63, 35)):
+                continue
+            same_end = len({tg[47], tg[63], tg[35]}) == 1
+            bs = tg.get(92)
+            special = False
+            if bs is not None:
+                blk = f.blocks[bs]["t"]
+                special = blk["k"] == "call" and strip_generics(blk["callee"]).endswith("SchemeType::is_special") \
+                    and f.expr_operand(blk["args"][0]) == "arg:scheme_type"
+            ok = same_end and special
+            why = f"ends at {sorted(chr(c) for c in (47, 63, 35) if c in tg)}, backslash arm guarded by scheme_type.is_special(): {special}"
+        run.ob("C12.5.url-scanner-tables", f"{name}:authority-ends", ok,
+               f"{name} ends the authority at `/`, `?`, `#` and, for special schemes only, at a backslash ({why})",
+               site=f.loc(0), config=cfg)
+    isp = F.fn("url_parser::parser::SchemeType::is_special")
+    variants = [v["name"] for v in F.adt("url_parser::parser::SchemeType")["variants"]]
+    table = {}
+    for p_ in enumerate_paths(isp):
+        if p_.end != "return":
+            continue
+        d = [v for e2, v in p_.conds if e2 == "discr(arg:self)"]
+        val = path_value(isp, p_, 0) or ""
+        for k, vn in enumerate(variants):
+            if not d or d[0] == k or (isinstance(d[0], tuple) and d[0][0] == "not" and k not in d[0][1]):
+                table.setdefault(vn, set()).add(val)
+    want = {vn: {"false" if vn == "NotSpecial" else "true"} for vn in variants}
+    run.ob("C12.5.url-scanner-tables", "is_special", table == want,
+           f"SchemeType::is_special is false exactly for NotSpecial ({ {k: sorted(v) for k, v in table.items()} })", site=isp.loc(0), config=cfg)
 
 
 def rule_brackets(run, F, cfg):
